@@ -12,7 +12,9 @@
                                                                          win = (sub_aw start stop)
                                -> [L [L [A code]]; A all-Case-patterns-fit]
    class 3  csr.Bridge         payload L [L names]   name = L parts, part = L (A 0 :: code points) | L [A 1; A n]
-                               -> [0; L subs]            sub = L code points | L [A (-1)] (anonymous)
+                               -> [0; L subs; 0]         sub = L code points | L [A (-1)] (anonymous), named ones
+                                                         first; last = number of registers (fields) that are
+                                                         not themselves a submodule of the design: none
    class 4  csr.Register       payload L [L field-paths]  -> as class 3 (without the "mux" entry)
    class 8  WishboneCSRBridge  payload as WbCsrBridgeE's configuration  -> [code]
    class 9  wishbone.Decoder   payload L [dec; L attempts] as WbDecoderE -> [L codes; A all-Case-patterns-fit]
@@ -109,7 +111,7 @@ Definition run_names (cls : Z) (f : list (list part) -> res (list (option str)))
       match mapM dec_name ns with
       | Some names =>
           match f names with
-          | Ok subs => L [A cls; A 0; L (map enc_sub (amaranth_order subs))]
+          | Ok subs => L [A cls; A 0; L (map enc_sub (amaranth_order subs)); A 0]   (* 0 = nothing left out *)
           | Err e => L [A cls; A (-3); A (code_of e)]
           end
       | None => bad 31
